@@ -145,6 +145,15 @@ PROPS = {
         "trusted_base": ["tools/extract.py gen_detectors", "harness/src/s_versions.rs (feature list, craft_append signing fixture)", "lean/Codec.lean, lean/Driver.lean"],
         "assumptions": [],
     },
+    "C20": {
+        "module": "BiscuitModel.Props.C20",
+        "streams": ["params"],
+        "level_text": "Lean 4 theorems about an executable model of parameter binding on source-level items (Model/Params: extract_parameters / collect_parameters, set / set_lenient / set_scope / set_scope_lenient, validate_parameters, apply_parameters for terms nested to any depth, map keys, expression values, closure bodies and scopes). The specification is the inductive relation Inst (the result is the item with every bound parameter replaced at its position by the bound term, nothing else changed): substTerm_inst and inst_functional (the substitution the builders perform is that relation, and the relation determines its result, whatever the value contains), bound_param_is_value, bound_string_is_one_literal (a bound string, printed, is read back as that one string - C14's theorem), subst_closed / substOps_closed / rule_apply_closed (when every declared parameter has a parameter-free value - a key position an integer or a string - and every scope parameter a key, NO parameter is left anywhere in the rule, so conversion meets none), missing_complete and missing_nil_iff (validation passes exactly when every declared name has a value and reports exactly the others), set_unknown_reported, set_lenient_unknown_ignored, set_scope_unknown_reported, set_known (a declared name gets exactly that value, no other name and not the item are touched). Tie: stream params - facts, rules, checks and policies with parameters injected at random at every kind of position, built through the constructors or through their printed source and the parser, bound by sequences of strict and lenient setters (all names, strict subsets, undeclared names, rebinding) to values over every term type including strings made of Datalog syntax; compared with the model: every setter's result, the validation verdict with the names it reports, and the item obtained from convert/convert_from against the model's substituted item; an implementation-only oracle requires that fact()/rule()/check()/policy() agree with validation, that the strict setters report undeclared names, and that no accepted item panics in conversion.",
+        "level_note": "The macros' parameter path (set_macro_param) is exercised by the generated crate of C18, not by this stream. Substitution is modelled on the AST because that is what the builders do; that the printed form of the substituted item parses back to it is C14 (partial for whole expressions). Map-key collisions after binding (two entries of one map getting the same key) are skipped by the comparator: BTreeMap keeps one of them.",
+        "rule": "params stream: corpus (the two fixed findings and the known one) first, then seeded items; non-trivial = the item has at least one parameter and one setter call; distinct = distinct case JSON",
+        "trusted_base": ["harness/src/s_params.rs (generator, parameter injection), harness/src/s_print.rs (AST<->JSON)", "tools/props.py cmp_params (sets and maps compared as unordered), oracle_params", "lean/Codec.lean, lean/Driver.lean runParams (check/policy setters distribute over queries)"],
+        "assumptions": [],
+    },
 }
 
 
@@ -516,7 +525,100 @@ def match_singleton_set_parameter(k, d):
         "parses back to a different program" in d["why"] or "does not parse" in d["why"] or "Remaining parameter" in d["why"])
 
 
-COMPARATORS = {"print": cmp_print, "snapshot": cmp_snapshot, "symbols": cmp_symbols, "versions": cmp_versions, "chain": cmp_chain, "limits": cmp_limits, "expr": cmp_default, "engine": cmp_engine, "authz": cmp_authz, "atten": cmp_atten, "determ": cmp_determ}
+# ---------------------------------------------------------------- params stream (C20)
+def canon_ast(j):
+    """sets and maps are unordered containers on the Rust side (BTreeSet / BTreeMap): compare them as such.
+    Returns None when a map has two entries with one key (the entries would collapse on the Rust side)."""
+    if isinstance(j, dict):
+        if set(j.keys()) == {"set"}:
+            xs = [canon_ast(x) for x in j["set"]]
+            if any(x is None for x in xs):
+                return None
+            uniq = {json.dumps(x, sort_keys=True): x for x in xs}
+            return {"set": [uniq[k] for k in sorted(uniq)]}
+        if set(j.keys()) == {"map"}:
+            kvs = [[canon_ast(k), canon_ast(v)] for k, v in j["map"]]
+            if any(v is None for _, v in kvs):
+                return None
+            keys = [json.dumps(k, sort_keys=True) for k, _ in kvs]
+            if len(set(keys)) != len(keys):
+                return None
+            return {"map": [kv for _, kv in sorted(zip(keys, kvs), key=lambda p: p[0])]}
+        out = {}
+        for k, v in j.items():
+            c = canon_ast(v)
+            if c is None and v is not None:
+                return None
+            out[k] = c
+        return out
+    if isinstance(j, list):
+        out = [canon_ast(x) for x in j]
+        return None if any(x is None and y is not None for x, y in zip(out, j)) else out
+    return j
+
+
+def cmp_params(case, impl, model):
+    if "driver_error" in model:
+        return "driver error: %s" % model["driver_error"]
+    if "panic" in impl:
+        return "implementation panicked: %s" % impl["panic"]
+    if "text_rejected" in impl:
+        return "skip"
+    if impl["binds"] != model["binds"]:
+        return "setter results differ: %s vs %s" % (json.dumps(impl["binds"]), json.dumps(model["binds"]))
+    if impl["validate"] != model["validate"]:
+        return "validation verdict differs: %s vs %s" % (json.dumps(impl["validate"]), json.dumps(model["validate"]))
+    if impl["add"] != "ok":
+        return None
+    if model["residual"]:
+        # the model keeps a parameter too (a key position bound to a non-key value): judged by the oracle
+        return None if "convert_panic" in impl else "the model predicts leftover parameters %s, the implementation converted" % model["residual"]
+    if "convert_panic" in impl:
+        return "conversion of a fully bound item panicked: %s" % impl["convert_panic"]
+    a, b = canon_ast(impl["converted"]), canon_ast(model["converted"])
+    if b is None:
+        return "skip"
+    if a != b:
+        return "converted item differs from the substituted item of the model: %s vs %s" % (json.dumps(a)[:400], json.dumps(b)[:400])
+    return None
+
+
+def oracle_params(case, impl):
+    """C20 on the implementation alone"""
+    if "panic" in impl:
+        return "panic: %s" % impl["panic"]
+    if "text_rejected" in impl:
+        return None
+    if impl["add"] != impl["validate"]:
+        return "fact()/rule()/check()/policy() and validate disagree: %s vs %s" % (json.dumps(impl["add"]), json.dumps(impl["validate"]))
+    for b, r in zip(case["binds"], impl["binds"]):
+        if b["name"] in ("unknown", "nokey"):
+            strict = b["m"] in ("set", "set_scope")
+            if case["kind"] == "fact" and b["m"].startswith("set_scope"):
+                continue
+            if strict and r == "ok":
+                return "strict setter accepted the undeclared name %s" % b["name"]
+            if not strict and r != "ok":
+                return "lenient setter refused the undeclared name %s" % b["name"]
+    if "convert_panic" in impl:
+        return "an item accepted by the builder panics when converted: %s" % impl["convert_panic"]
+    return None
+
+
+def match_map_key_parameter_type(k, d):
+    """a parameter in map-key position bound to a value that is neither an integer nor a string stays in place
+    (term.rs `//FIXME: we should return an error`), passes validation and makes the conversion panic"""
+    if d["stream"] != "params" or "Remaining parameter" not in d["why"]:
+        return False
+    res = d["model"].get("residual") or []
+    bound = {}
+    for b in d["case"]["binds"]:
+        if "value" in b:
+            bound[b["name"]] = b["value"]
+    return bool(res) and all(n in bound and not ("int" in bound[n] or "str" in bound[n]) for n in res)
+
+
+COMPARATORS = {"params": cmp_params, "print": cmp_print, "snapshot": cmp_snapshot, "symbols": cmp_symbols, "versions": cmp_versions, "chain": cmp_chain, "limits": cmp_limits, "expr": cmp_default, "engine": cmp_engine, "authz": cmp_authz, "atten": cmp_atten, "determ": cmp_determ}
 
 
 def nontrivial(stream, case, impl):
@@ -540,6 +642,8 @@ def nontrivial(stream, case, impl):
         return impl["ext"].get("r") in ("ok", "nomatch", "unauth") and impl["base"].get("r") in ("ok", "nomatch", "unauth")
     if stream == "engine":
         return impl.get("r") == "ok" and impl.get("iterations", 0) >= 1
+    if stream == "params":
+        return len(case["binds"]) >= 1 and '"param"' in json.dumps(case["item"])
     if stream == "print":
         t = json.dumps(case["item"])
         return '\\"' in t or '\\\\' in t or '"bin"' in t or '"map"' in t or '"scopes": [{' in t
@@ -676,7 +780,7 @@ def oracle_limits(case, impl):
     return None
 
 
-ORACLES = {("C14", "print"): oracle_print, ("C13", "snapshot"): oracle_snapshot, ("C12", "symbols"): oracle_symbols, ("C10", "limits"): oracle_limits, ("C06", "expr"): oracle_expr, ("C03", "atten"): oracle_atten}
+ORACLES = {("C20", "params"): oracle_params, ("C14", "print"): oracle_print, ("C13", "snapshot"): oracle_snapshot, ("C12", "symbols"): oracle_symbols, ("C10", "limits"): oracle_limits, ("C06", "expr"): oracle_expr, ("C03", "atten"): oracle_atten}
 
 
 def signature(d):
@@ -729,7 +833,7 @@ def match_policies_key_scope(k, d):
     return d["why"].startswith("policies restore error") and "UnknownExternalKey" in d["why"] and '"key"' in json.dumps(d["case"]["az"])
 
 
-MATCHERS = {"singleton-set-parameter": match_singleton_set_parameter, "policies-key-scope": match_policies_key_scope, "ecdsa-s": match_ecdsa_s, "amb": match_amb, "time-after-failed-run": match_time_after_failed_run}
+MATCHERS = {"map-key-parameter-type": match_map_key_parameter_type, "singleton-set-parameter": match_singleton_set_parameter, "policies-key-scope": match_policies_key_scope, "ecdsa-s": match_ecdsa_s, "amb": match_amb, "time-after-failed-run": match_time_after_failed_run}
 
 
 # ---------------------------------------------------------------- shrinking
